@@ -180,8 +180,8 @@ func runMemory(c *mc.Ctx, keys []keyT, alphas []named) {
 		tail := len(al.b) + 96 // room for anything the library might append behind an argument
 
 		// reference side, once per case
-		tr := refvrf.Prove(f, k.ref, al.b)
-		tr1 := refvrf.Prove(f, k1.ref, al.b)
+		tr := proveRef(f, k.ref, al.b)
+		tr1 := proveRef(f, k1.ref, al.b)
 		badPi := append([]byte{}, tr.Pi...)
 		badPi[40] ^= 0x10 // one bit of c
 		if ok, _, _ := refvrf.Verify(f, k.pk, badPi, al.b, true); ok {
